@@ -10,7 +10,12 @@ RULE = ("abstract documents (props/docgen.py: 8 operators, quoted/unquoted/@vari
         "model/implementation comparison only. non-trivial = the tape has a container or operator and write_tape succeeded. "
         "Wave 4 (props/C14_reuse.py): writer SESSIONS -- one TextWriter over an owned Vec (into_inner at the end) that writes two tapes "
         "one after the other, a tape inside 1..12 objects opened by direct calls, a tape after a direct key/value, with raw inner() "
-        "writes in between, builder defaults (no setter called) -- judged by metamorphic oracles on the real writer and parser")
+        "writes in between, builder defaults (no setter called) -- judged by metamorphic oracles on the real writer and parser. "
+        "Wave 6 (props/C14_sizes.py): size ladders 0 1 2 3 7 8 9 15 16 17 .. 65535 65536, one dimension at a time: nesting depth to 4097 "
+        "with mixed container kinds per level, indent width depth x factor around 16 / 256 / 1024 / 4096 / 65536 (factor 0..255), siblings per "
+        "container to 65536, scalar length per role to 65536, escapes per quoted scalar to 300, write_tape calls per writer to 1025, base "
+        "depth of a reused writer to 65536 -- judged by re-parse = document, fixed point, an indentation law on the written bytes and the "
+        "shift law (a tape written inside D open containers is the depth-0 text indented by D x factor)")
 TRUSTED = ["the text parser (TextTape::from_slice) is used as is by the oracles; its own correctness is C01/C06's subject",
            "props/docgen.py flatten is cross-checked against the real parser on every run (stream parse)"]
 ASSUMPTIONS = ["round-trippable subset: objects that continue as a bare value list are excluded (documented by the writer)",
@@ -271,6 +276,11 @@ def run(ctx, widen=False):
     from props import C14_reuse
     C14_reuse.run(ctx, _fail)
     # <<< a_wr
+    # >>> s_wr (wave 6): size / boundary ladders, one dimension at a time (audit/C14.md "Size dimensions")
+    if not widen:
+        from props import C14_sizes
+        C14_sizes.run(ctx, _fail)
+    # <<< s_wr
 
 
 def probe_bom_key(ctx):
